@@ -7,15 +7,20 @@ VERIF = Path(__file__).resolve().parent.parent
 NOTE_COMMON = 'Trusted: Coq 8.16.1 kernel + vm_compute, the translators in harness/gen.py, the correspondence harness and shims; ' \
 	'the theorems are about the Gallina model, tied to /repo by regenerated constants/operators and by differential runs of model vs implementation.'
 
-CHECKS = {
-	'C13': {
-		'text': 'All 8 identifier laws are Qed theorems (Props/C13.v, closed under the global context) over the model of IdGenerator.py, '
-			'Metadata.py and the alias half of symbol.Network.Address, instantiated with the Gallina SHA3-256 and with constants/operators '
-			'regenerated from the source on every run; model and implementation are compared on seeded inputs for all 8 functions.',
-		'design_ref': 'DESIGN.md section 4, C13',
-		'technique': 'Coq proof over regenerated model + vm_compute correspondence with the Python implementation',
-	},
-}
+def collect():
+	"""Every harness/checks/<id>.py exports MANIFEST = {'text', 'design_ref', 'technique'[, 'note']}."""
+	import importlib
+	import pkgutil
+	from . import checks
+	found = {}
+	for info in pkgutil.iter_modules(checks.__path__):
+		module = importlib.import_module(f'{checks.__name__}.{info.name}')
+		if hasattr(module, 'MANIFEST'):
+			found[info.name.upper()] = module.MANIFEST
+	return found
+
+
+CHECKS = collect()
 
 PENDING_REASON = 'check not yet built in this round (planned at proof level, see DESIGN.md section 4); not claimed until its theorems and correspondence run'
 
